@@ -3,6 +3,7 @@ from __future__ import annotations
 
 import re
 import subprocess
+from html import escape as _html_escape
 
 from . import gen
 from .c11 import build_chain
@@ -13,8 +14,9 @@ EDGE_RE = re.compile(r"^\t(\"?[^\s\"]+\"?) -> (\"?[^\s\"]+\"?) \[label=(.*)\]$")
 TD_RE = re.compile(r"<TD([^>]*)>(.*?)</TD>")
 
 
-def parse_dot(src: str):
+def parse_dot(src: str, labels=None):
     nodes, edges = [], []
+    labels = [] if labels is None else labels
     for line in src.split("\n"):
         m = EDGE_RE.match(line)
         if m:
@@ -32,6 +34,7 @@ def parse_dot(src: str):
             if shown == [""]:
                 shown, has_ports = [], False
             nodes.append([m.group(1).strip('"'), shown, has_ports])
+            labels.append("<" + m.group(2) + ">")
     return nodes, edges
 
 
@@ -48,8 +51,28 @@ def html_name(name: str) -> str:
         try:
             _html[name] = latex_to_html_name(_html["maps"][0][name])
         except Exception:
-            _html[name] = name
+            # any other name is shown as text: the three markup characters escaped (finding F17)
+            _html[name] = _html_escape(name, quote=False)
     return _html[name]
+
+
+def table_spelling(name: str):
+    """the HTML spelling the particle package has for an EvtGen name (oracle for the model), or None"""
+    html_name(name)
+    try:
+        _html["maps"][0][name]
+    except Exception:
+        return None
+    return _html[name]
+
+
+def chain_names(cd: dict):
+    (mother, modes), = cd.items()
+    out = [mother]
+    for m in modes:
+        for it in m["fs"]:
+            out.extend([it] if isinstance(it, str) else chain_names(it))
+    return out
 
 
 def chain_wire_lbl(cd: dict):
@@ -105,7 +128,8 @@ def run(ctx):
             res.violation(f"viewer raised {type(e).__name__}: {e}", case, clause="graph")
             res.case()
             return
-        nodes, edges = parse_dot(src)
+        labels = []
+        nodes, edges = parse_dot(src, labels)
         ids = [n[0] for n in nodes if n[0] != "mother"]
         start = int(ids[0][3:]) if ids and ids[0].startswith("dec") and ids[0][3:].isdigit() else 0
         wn, we, end = spec_graph(cd, start)
@@ -151,6 +175,21 @@ def run(ctx):
 
         batch.add(["graph", start, chain_wire_lbl(cd)], on)
 
+        def on_labels(ans, case=case, labels=labels):
+            if ans is None:
+                return
+            if not isinstance(ans, list) or ans[0] != "ok":
+                res.violation("model rejects the chain", case, model=ans, clause="model tie: labels")
+                return
+            if list(ans[1]) != labels:
+                bad = [(a, b) for a, b in zip(ans[1], labels) if a != b][:2]
+                res.violation("the label text of a node differs from the model (html_table_label)", case,
+                              impl=[b for _, b in bad] or len(labels), model=[a for a, _ in bad] or len(ans[1]), clause="model tie: labels")
+
+        tbl = sorted({n: table_spelling(n) for n in chain_names(cd)}.items())
+        batch.add(["graph_labels", start, [[k, v] for k, v in tbl if v is not None], chain_wire_lbl(cd)], on_labels)
+        res.count("labels_compared", len(labels))
+
     attr_choices = [{}, {}, {}, {"name": "G1"}, {"name": "DecayChainGraph"}, {"format": "svg"}, {"node_attr": {"fontsize": "9"}},
                     {"name": "other", "graph_attr": {"rankdir": "TB"}}, {"edge_attr": {"fontcolor": "#000000"}}, {"name": "G1"}]
     for i in range(n_docs):
@@ -169,6 +208,39 @@ def run(ctx):
         spec = gen.rand_tree_spec(rng, rng.choice([1, 2, 3, 4, 5]), max_mult=3)
         dc = build_chain(spec, rng, with_meta=False)
         one(dc.to_dict(), "class", rng.choice(attr_choices))
+    # fixed finding F17: names with HTML markup characters (only possible in hand-made chain dictionaries; always piped
+    # through dot), alone, among table names, as mother, in nested lines, and as pure entity look-alikes
+    special = ["a<b", "x&y", "p>q", "&amp;", "<SUB>", "a&b;c", "<<>>", "K&lt;", "&", "<", "q\"r", "it's", "&#773;"]
+    for k in range(12 if tier == "quick" else 120):
+        spec = gen.rand_tree_spec(rng, rng.choice([1, 2, 3]), max_mult=2)
+        dc = build_chain(spec, rng, with_meta=False)
+        cd = dc.to_dict()
+
+        def rename(cd, depth=0):
+            (mother, modes), = cd.items()
+            nm = rng.choice(special) if rng.random() < (0.3 if depth else 0.15) else mother
+            return {nm: [dict(m, fs=[(rng.choice(special) if rng.random() < 0.35 else it) if isinstance(it, str) else rename(it, depth + 1)
+                                     for it in m["fs"]]) for m in modes]}
+
+        dot_budget[0] += 1
+        one(rename(cd), "special-names", {})
+    for nm in special:
+        dot_budget[0] += 1
+        one({"A": [{"bf": 1.0, "fs": [nm, "c"], "model": "", "model_params": ""}]}, "special-name", {})
+    # the oracle of the label theorem: every HTML spelling of the particle table is accepted by Graphviz
+    from particle.converters.bimap import DirectionalMaps as _DM
+
+    html_name("pi0")
+    all_names = sorted(str(k) for k in _html["maps"][0]._to_map) if hasattr(_html["maps"][0], "_to_map") else []
+    if all_names:
+        for lo in range(0, len(all_names), 300):
+            chunk = all_names[lo:lo + 300]
+            v = DecayChainViewer({"A": [{"bf": 1.0, "fs": chunk, "model": "", "model_params": ""}]})
+            pr = subprocess.run(["dot", "-Tplain"], input=v.to_string().encode(), capture_output=True)
+            res.count("table_spellings_through_dot", len(chunk))
+            if pr.returncode != 0:
+                res.violation("an HTML spelling of the particle table is not accepted by Graphviz", {"kind": "table", "names": chunk[:5]},
+                              impl=pr.stderr.decode()[:300], clause="graphviz")
     # fixed finding F16: a decay line without daughters (always piped through dot)
     dot_budget[0] += 3
     one({"A": [{"bf": 0.5, "fs": [], "model": "PHSP", "model_params": ""}, {"bf": 0.5, "fs": ["b", {"C": [{"bf": 1.0, "fs": [], "model": "", "model_params": ""}]}], "model": "", "model_params": ""}]}, "regression F16", {})
